@@ -167,7 +167,7 @@ def g_token(rng, kf=True):
     if x < 0.74:
         raw, val = g_raw(rng, 34)
         enc = rng.choice([0, 0, 0, 2, 4, 8, 16])
-        if kf and rng.random() < 0.04:
+        if kf and rng.random() < 0.015:
             enc |= 1                                       # raw string: known finding
             val = [c for c in val if c not in (34, 41)]
         return "S%d.%s.%s" % (enc, hx(val), hx(g_udf(rng).encode()))
@@ -181,7 +181,7 @@ def g_token(rng, kf=True):
             txt = txt.replace(b"*/", b"* /")
         if txt.startswith(b"/"):
             txt = b" " + txt
-        if kf and rng.random() < 0.05:
+        if kf and rng.random() < 0.02:
             txt = rng.choice([b"/ x ", b" a \\*/ b ", b"\\"]) + txt
         return "K" + hx(b"/*" + txt + b"*/")
     if x < 0.96:
@@ -382,7 +382,7 @@ def run(run, tier, seed, replay_case=None):
 
     rng = random.Random(seed * 7919 + 12)
     corpus = C.load_corpus(PROP)
-    nq, nb, nh = (2200, 2600, 300) if tier == "quick" else (60000, 80000, 4000)
+    nq, nb, nh = (2200, 2600, 300) if tier == "quick" else (10000, 12000, 1000)
     cases = list(corpus) + fixed_cases()
     cases += [gen_Q(rng, tier) for _ in range(nq)]
     cases += [gen_B(rng, tier) for _ in range(nb)]
